@@ -97,10 +97,15 @@ fn scenario_a() {
     let reference = e.synthesize(&LABELS).unwrap();
     assert!(!reference.is_empty());
     let snap = snapshot(&e);
+    let barrier = Arc::new(std::sync::Barrier::new(3));
     let hs: Vec<_> = (0..3)
         .map(|_| {
             let e = e.clone();
-            std::thread::spawn(move || e.synthesize(&LABELS).unwrap())
+            let b = barrier.clone();
+            std::thread::spawn(move || {
+                b.wait();
+                e.synthesize(&LABELS).unwrap()
+            })
         })
         .collect();
     for h in hs {
@@ -181,10 +186,15 @@ fn scenario_d() {
     let e = Arc::new(eng);
     let reference = e.synthesize(&LABELS[..1]).unwrap();
     assert!(!reference.is_empty());
+    let barrier = Arc::new(std::sync::Barrier::new(2));
     let hs: Vec<_> = (0..2)
         .map(|_| {
             let e = e.clone();
-            std::thread::spawn(move || e.synthesize(&LABELS[..1]).unwrap())
+            let b = barrier.clone();
+            std::thread::spawn(move || {
+                b.wait();
+                e.synthesize(&LABELS[..1]).unwrap()
+            })
         })
         .collect();
     for h in hs {
@@ -198,15 +208,75 @@ fn scenario_d() {
 fn scenario_e() {
     let e = Arc::new(engine(0.0));
     let reference = e.synthesize(&LABELS).unwrap();
+    let barrier = Arc::new(std::sync::Barrier::new(10));
     let hs: Vec<_> = (0..10)
         .map(|_| {
             let e = e.clone();
-            std::thread::spawn(move || e.synthesize(&LABELS).unwrap())
+            let b = barrier.clone();
+            std::thread::spawn(move || {
+                b.wait();
+                e.synthesize(&LABELS).unwrap()
+            })
         })
         .collect();
     for h in hs {
         let w = h.join().unwrap();
         assert_eq!(bits(&w), bits(&reference), "C03: ten concurrent synthesize calls on a shared engine: one differs from the sequential result");
+    }
+}
+
+fn hash_wave(w: &[f64]) -> u64 {
+    // FNV-1a over the sample bits
+    let mut h: u64 = 0xcbf2_9ce4_8422_2325;
+    for x in w {
+        for b in x.to_bits().to_le_bytes() {
+            h ^= b as u64;
+            h = h.wrapping_mul(0x0000_0100_0000_01b3);
+        }
+    }
+    h
+}
+
+/// R: the sequential reference of scenario F, computed alone in its own process (single thread,
+/// nothing warmed up before it). Prints the hash that F is given as its second argument.
+fn scenario_r() {
+    let e = engine(0.0);
+    let w = e.synthesize(&LABELS).unwrap();
+    assert!(!w.is_empty());
+    println!("refhash {:016x}", hash_wave(&w));
+}
+
+/// F: cold start. Three threads make the FIRST calls ever on a freshly built engine: nothing in the
+/// voice, the process or the threads has been used before, so lazily initialised tables and caches
+/// are filled by racing threads. Afterwards the same engine, a clone and a separately built twin are
+/// called sequentially. Everything must agree, and (when given) equal the hash that scenario R
+/// computed in another process.
+fn scenario_f(expected: Option<u64>) {
+    let e = Arc::new(engine(0.0));
+    let k: usize = std::env::args().nth(3).and_then(|x| x.parse().ok()).unwrap_or(4);
+    // a start barrier releases the callers together (they then drift apart only by pre-emption)
+    let barrier = Arc::new(std::sync::Barrier::new(k));
+    let hs: Vec<_> = (0..k)
+        .map(|_| {
+            let e = e.clone();
+            let b = barrier.clone();
+            std::thread::spawn(move || {
+                b.wait();
+                e.synthesize(&LABELS).unwrap()
+            })
+        })
+        .collect();
+    let outs: Vec<Vec<f64>> = hs.into_iter().map(|h| h.join().unwrap()).collect();
+    let again = e.synthesize(&LABELS).unwrap();
+    let cloned = Engine::clone(&e).synthesize(&LABELS).unwrap();
+    let twin = engine(0.0).synthesize(&LABELS).unwrap();
+    for (i, w) in outs.iter().enumerate() {
+        assert_eq!(bits(w), bits(&twin), "C03: first concurrent call #{} on a never-used engine differs from a separately built engine over an equal voice", i);
+    }
+    assert_eq!(bits(&again), bits(&twin), "C03: a call after the concurrent first calls differs from a separately built engine over an equal voice");
+    assert_eq!(bits(&cloned), bits(&twin), "C03: a clone used after the concurrent first calls differs from a separately built engine over an equal voice");
+    if let Some(x) = expected {
+        assert_eq!(hash_wave(&twin), x, "C03: output in a process whose first calls were concurrent differs from the output of a sequential process");
     }
 }
 
@@ -218,6 +288,8 @@ fn main() {
         "C" => scenario_c(),
         "D" => scenario_d(),
         "E" => scenario_e(),
+        "F" => scenario_f(std::env::args().nth(2).and_then(|x| u64::from_str_radix(&x, 16).ok())),
+        "R" => scenario_r(),
         _ => panic!("unknown scenario"),
     }
     println!("scenario {} ok", which);
